@@ -255,11 +255,17 @@ func (p *pkgInfo) resolvePrim(name string, write bool, depth int) prim {
 		if body == want && p.resolvePrim("Write16", true, 0).width == 2 && p.resolvePrim("Write8", true, 0).width == 1 {
 			return prim{width: -1, ok: true}
 		}
+		if w, ok := baseBySignature(fd, name, write); ok && w == -1 {
+			return prim{width: -1, ok: true}
+		}
 		return prim{}
 	}
 	if name == "ReadString" {
 		want := canonText(`func (b *buffer) ReadString() string { l := b.Read16(); if !b.has(int(l)) { b.markOverrun(); return "" }; bs := make([]byte, l); for i := 0; i < int(l); i++ { bs[i] = byte(b.Read8()) }; return string(bs) }`)
 		if body == want && p.resolvePrim("Read16", false, 0).width == 2 && p.resolvePrim("Read8", false, 0).width == 1 {
+			return prim{width: -1, ok: true}
+		}
+		if w, ok := baseBySignature(fd, name, write); ok && w == -1 {
 			return prim{width: -1, ok: true}
 		}
 		return prim{}
@@ -282,6 +288,14 @@ func (p *pkgInfo) resolvePrim(name string, write bool, depth int) prim {
 			if body == canonText(fmt.Sprintf("func (b *buffer) R() uint%d { v, ok := b.consume(%d); if !ok { return 0 }; return order.Uint%d(v) }", 8*w, w, 8*w)) && p.littleEndian() {
 				return prim{width: w, ok: true}
 			}
+		}
+	}
+	// not in the recognised form: the base primitives are then taken by name and signature
+	// (ReadN() uintN, WriteN(v uintN), ReadString() string, WriteString(s string)); what they do is
+	// checked against the model on the running code by mode kprim (Gen.primTable is the claim)
+	if w, ok := baseBySignature(fd, name, write); ok {
+		if w == -1 || p.littleEndian() {
+			return prim{width: w, ok: true}
 		}
 	}
 	// delegation: exactly one statement, calling another primitive through conversions / a mask
@@ -1150,6 +1164,7 @@ func genLayouts(p *pkgInfo, out string) {
 	fmt.Fprintf(&sb, "def sendFailureLeavesNothing : Bool := %v\n", leaves)
 	fmt.Fprintf(&sb, "def responsePutOnlyDeferred : Bool := %v\n", putDeferred)
 	fmt.Fprintf(&sb, "def doneChannelHoldsOne : Bool := %v\n", capOne)
+	sb.WriteString(p.primTable())
 	fmt.Fprintf(&sb, "def treadNeverReleasesItsBuffer : Bool := %v\n", treadNoPut)
 	fmt.Fprintf(&sb, "def sendBufferReleasedAfterWrite : Bool := %v\n", sendAfter)
 	fmt.Fprintf(&sb, "def recvBufferReleasedOnReturn : Bool := %v\n", recvPut)
@@ -1481,4 +1496,62 @@ func substituteHelper(h *ast.FuncDecl, args []ast.Expr, target string) ([]ast.St
 		return nil, false
 	}
 	return nf.Decls[0].(*ast.FuncDecl).Body.List, true
+}
+
+// baseBySignature: width (bytes; -1 = string) of a base primitive, from its name and signature.
+func baseBySignature(fd *ast.FuncDecl, name string, write bool) (int, bool) {
+	typeOf := func(l *ast.FieldList) string {
+		if l == nil || len(l.List) != 1 || len(l.List[0].Names) > 1 {
+			return ""
+		}
+		return src(l.List[0].Type)
+	}
+	var t string
+	if write {
+		if fd.Type.Results != nil && len(fd.Type.Results.List) > 0 {
+			return 0, false
+		}
+		t = typeOf(fd.Type.Params)
+	} else {
+		if fd.Type.Params != nil && len(fd.Type.Params.List) > 0 {
+			return 0, false
+		}
+		t = typeOf(fd.Type.Results)
+	}
+	pre := "Read"
+	if write {
+		pre = "Write"
+	}
+	switch {
+	case name == pre+"String" && t == "string":
+		return -1, true
+	case name == pre+"8" && t == "uint8", name == pre+"16" && t == "uint16", name == pre+"32" && t == "uint32", name == pre+"64" && t == "uint64":
+		n, _ := strconv.Atoi(name[len(pre):])
+		return n / 8, true
+	}
+	return 0, false
+}
+
+// primTable: what the extractor takes every codec primitive (exported method of buffer) to be.
+func (p *pkgInfo) primTable() string {
+	var names []string
+	for k := range p.methods {
+		if strings.HasPrefix(k, "buffer.") {
+			n := strings.TrimPrefix(k, "buffer.")
+			if strings.HasPrefix(n, "Read") || strings.HasPrefix(n, "Write") {
+				names = append(names, n)
+			}
+		}
+	}
+	sort.Strings(names)
+	var rows []string
+	for _, n := range names {
+		w := strings.HasPrefix(n, "Write")
+		k := p.resolvePrim(n, w, 0).akind()
+		if k == "" {
+			k = ".int 0" // unresolved: shows as a width nothing has
+		}
+		rows = append(rows, fmt.Sprintf("(%s, %v, %s)", leanStr(n), w, k))
+	}
+	return "def primTable : List (String × Bool × AKind) := [" + strings.Join(rows, ", ") + "]\n"
 }
